@@ -339,7 +339,8 @@ def find_spec(ctx, R, cls, rule):
                     if not o.st.forall and sname not in ("local-unknown",):
                         # returned None without searching: only for an empty store
                         emp = o.st.flags.get(("outer-rest",)) is False or any(a[0] == "outer-has" and v is False for a, v in o.st.flags.items()) or \
-                            any(a[0] == "inner-has" and v is False for a, v in o.st.flags.items())
+                            any(a[0] == "inner-has" and v is False for a, v in o.st.flags.items()) or \
+                            (not a0_given and any(a[0] == "inner-rest" and v is False for a, v in o.st.flags.items()))      # the row asked about is empty
                         R.check(emp, rule, sub + "|none-without-search", "None without a search only for an empty store / unknown key", "find() returns None without searching (%s)" % _fmt_flags(o.st), f.loc())
                     continue
                 hits += 1
